@@ -128,23 +128,25 @@ def World.dealloc (w : World) (b n tag : Nat) : World :=
                                                    leaked := blk.leaked || (blk.cons != 0) }
              | none => w.heap }
 
+/-- ghost: `n` more elements are constructed inside block `b` -/
+def World.grow (w : World) (b : Option Nat) (n : Nat) : World :=
+  match b with
+  | some b => { w with heap := match w.heap[b]? with
+                               | some blk => w.heap.set b { blk with cons := blk.cons + n }
+                               | none => w.heap }
+  | none => if n = 0 then w else { w with ub := true }
+
 /-- construct `n` elements in block `b` (default / fill / copy construction: all counted alike).
     Returns false if the fault fired: the elements built so far have been destroyed again by the
     roll-backs of default_construct_range_impl / std::uninitialized_* / the row loops. -/
 def World.construct (w : World) (o : Org) (b : Option Nat) (n : Nat) : World × Bool :=
-  let grow (w : World) : World :=
-    match b with
-    | some b => { w with heap := match w.heap[b]? with
-                                 | some blk => w.heap.set b { blk with cons := blk.cons + n }
-                                 | none => w.heap }
-    | none => if n = 0 then w else { w with ub := true }
   if o.nontrivial then
     match w.failC with
     | some k =>
       if k < n then ({ w with ctor := w.ctor + k, dtor := w.dtor + k, failC := none }, false)
-      else (grow { w with ctor := w.ctor + n, failC := some (k - n) }, true)
-    | none => (grow { w with ctor := w.ctor + n }, true)
-  else (grow w, true)
+      else (World.grow { w with ctor := w.ctor + n, failC := some (k - n) } b n, true)
+    | none => (World.grow { w with ctor := w.ctor + n } b n, true)
+  else (w.grow b n, true)
 
 /-- destruct_pixels(view) for a view of `n` elements inside block `b` -/
 def World.destruct (w : World) (o : Org) (b : Option Nat) (n : Nat) : World :=
@@ -275,12 +277,19 @@ def userFill (w : World) (s v : Nat) : World :=
   | some i => w.setImg s (some { i with pix := List.replicate (i.w * i.h) v })
   | none => w
 
+/-- `alloc_in == _alloc` (recreate overloads with an allocator), true for the overloads without -/
+def sameAlloc (c : Cfg) (alloc : Option Nat) (tag : Nat) : Bool :=
+  match alloc with | some t => c.tagOf t == tag | none => true
+
+/-- allocator of the temporary in recreate: `alloc_in`, or a default constructed `Alloc()` -/
+def tmpTag (c : Cfg) (alloc : Option Nat) : Nat :=
+  match alloc with | some t => c.tagOf t | none => c.defaultTag
+
 def stepRec (c : Cfg) (o : Org) (w : World) (s W H al : Nat) (fill : Option Nat) (alloc : Option Nat) (v : Nat) : World × Outcome :=
   match w.imgs s with
   | none => (w, .skip)
   | some i =>
-    let sameAlloc : Bool := match alloc with | some t => c.tagOf t == i.tag | none => true
-    if W = i.w ∧ H = i.h ∧ i.align = al ∧ sameAlloc = true then
+    if W = i.w ∧ H = i.h ∧ i.align = al ∧ sameAlloc c alloc i.tag = true then
       (if fill.isNone then userFill w s v else w, .ok)
     else
       let i := { i with align := al }            -- `_align_in_bytes = alignment;` before anything can throw
@@ -289,8 +298,7 @@ def stepRec (c : Cfg) (o : Org) (w : World) (s W H al : Nat) (fill : Option Nat)
       let r :=
         if i.allocated ≥ o.needed al W H then pReuse o w s W H content
         else
-          let tag := match alloc with | some t => c.tagOf t | none => c.defaultTag
-          swapWithTmp c o (pCtor c o w tmpSlot (Img.fresh al tag) W H content none) s
+          swapWithTmp c o (pCtor c o w tmpSlot (Img.fresh al (tmpTag c alloc)) W H content none) s
       andThen r fun w => (if fill.isNone then userFill w s v else w, .ok)
 
 def stepAssign (c : Cfg) (o : Org) (w : World) (s s2 : Nat) : World × Outcome :=
